@@ -759,6 +759,8 @@ class Evaluator:
             return numpy_prims.arr2_subscript(self, state, base, node)
         if isinstance(sl, ast.Slice):
             return self.slice_value(state, base, sl, node)
+        if base.ty[0] == 'arr' and isinstance(sl, ast.Tuple) and not sl.elts:
+            return SymVal(base.ty, base.term)      # a[()] : the whole array (h5py: read the dataset)
         if base.ty[0] in ('arr', 'list') and not isinstance(sl, ast.Slice):
             iv = self.eval(state, sl)
             if iv.ty[0] in ('arr', 'list'):
